@@ -7,13 +7,17 @@ The one place where the *code* iterates a hash-ordered container is `future_pred
 the `other` / `numeric` dictionaries of `transform_theory_atom`; all are passed through `sorted(...)` before
 anything is emitted.  `sorted_iteration_independent` is the Lean content: whatever order the container yields
 its elements in (any permutation), sorting by a total order gives the same list — so the emitted bridge
-rules and `future_sigs` do not depend on the hash seed.  `parts_function_of_rules` / `future_function_of_rules`:
-the part list and the future heads computed by the model depend on the program text only.
+rules and `future_sigs` do not depend on the hash seed.  `variable_tuple_order_independent`: the argument tuple of the
+auxiliary atom of a head formula depends on the set of its variables only; `ranges_insertion_order_independent`: so do the
+time points covered by the merged ranges of a head-formula atom.  (That the model's part list, future signatures and ground
+program are functions of the program text needs no theorem: they are Lean functions.)
 PARTIAL: CPython's hash randomisation, module import state and re-entrancy cannot be exhibited by the model;
 they are exercised by the perturbed runs of the real code (hash seeds in subprocesses, repeated, interleaved
 and re-entrant translations and solving runs in one process).
 -/
 import TelProofs.OrderIndep
+import TelProofs.HeadVarsProofs
+import TelProofs.IntervalProofs
 
 namespace TelProofs.C14
 open TelSpec TelModel TelProofs
@@ -30,15 +34,22 @@ theorem sorted_iteration_independent {α} (le : α → α → Bool)
   · exact List.pairwise_mergeSort (fun a b c => trans a b c) (fun a b => total a b) l2
   · exact ((List.mergeSort_perm l1 le).trans hp).trans (List.mergeSort_perm l2 le).symm
 
-/-- the model's part list is a function of the program alone: equal programs, equal parts (no hidden input) -/
-theorem parts_function_of_rules (P Q : TProg) (h : P = Q) : partsOf P = partsOf Q := by rw [h]
+/-- the arguments of the auxiliary atom of a head formula (`get_variables`: a dictionary keyed by name, read in key order)
+    depend on the *set* of variables only — not on where, how often, or in which order they occur or are visited -/
+theorem variable_tuple_order_independent (t t' : HTerm) (h : ∀ x, x ∈ t.varsOf ↔ x ∈ t'.varsOf) :
+    getVariables t = getVariables t' :=
+  getVariables_set t t' h
 
-/-- … and so are the future signatures and the whole ground program at every horizon -/
-theorem future_function_of_rules (P Q : TProg) (h : P = Q) : futureHeads P = futureHeads Q ∧ ∀ n, G P n = G Q n := by
-  subst h; exact ⟨rfl, fun _ => rfl⟩
-
-/-- consequently repeated runs report the same answer sets per horizon -/
-theorem repeated_runs_same (P : TProg) (h : Nat) (X : Interp) : Stable (G P h) X ↔ Stable (G P h) X := Iff.rfl
+/-- the time points covered by the merged ranges of a head-formula atom (`IntervalSet`) do not depend on the order in which
+    the ranges were added (the traversal order of the formula) -/
+theorem ranges_insertion_order_independent (ys ys' : List Ival) (hp : List.Perm ys ys') (x : Int) :
+    IntervalSet.memPoint (ys.foldl IntervalSet.add []) x = IntervalSet.memPoint (ys'.foldl IntervalSet.add []) x := by
+  have h1 := (addAll_spec ys [] (by simp [IvSorted])).2 x
+  have h2 := (addAll_spec ys' [] (by simp [IvSorted])).2 x
+  rw [h1, h2]
+  congr 1
+  rw [Bool.eq_iff_iff, List.any_eq_true, List.any_eq_true]
+  exact ⟨fun ⟨y, hy, hm⟩ => ⟨y, hp.mem_iff.mp hy, hm⟩, fun ⟨y, hy, hm⟩ => ⟨y, hp.mem_iff.mpr hy, hm⟩⟩
 
 /-! ### non-vacuity: sorting (name length, here) keys of a set given in two orders -/
 example : [3, 1, 2].mergeSort (fun a b => decide (a ≤ b)) = [2, 3, 1].mergeSort (fun a b => decide (a ≤ b)) :=
